@@ -445,4 +445,7 @@ def check(report: Report, repo: Repo) -> None:
         report.add("R5-backend", f"{SF}::simulate_fp8", okf, "simulate_fp8 is the E4M3-forward / E5M2-backward instance", got, [(4, 3), (5, 2)])
     except Unsupported as ex:
         report.add("R5-backend", f"{SF}::simulate_format", None, f"outside fragment: {ex}")
+    from .c17 import check_root_entry
+
+    check_root_entry(report, repo, "R5-backend")  # the transform is only applied at all if TorchDynamo traces the root
     report.floor("wrapper / splice obligations", len([o for o in report.obls if o.rule in ("R2-wrappers", "R4-splice")]), 20)
